@@ -4,7 +4,10 @@ C17 — Transactions commit or roll back exactly their own changes.
 Model: Gms/Model/Txn.lean (Impl model of memory.Session's working copies, beginTransaction,
 START TRANSACTION / COMMIT / ROLLBACK, TransactionCommittingIter.Close; Spec = the same machine
 with "publish exactly the written tables", "DDL ends the explicit transaction", "READ ONLY
-rejects writes").
+rejects writes"). A write attempted in a READ ONLY transaction registers the table's snapshot in
+the session before the analyzer rule panics (`readonly_write_registers_like_read`); together with
+a later commit this is the listed write-back of a table that was only read
+(`finding_readonly_panic_then_commit_overwrites`).
 -/
 import Gms.Model.Txn
 import Gms.Generated.C17
@@ -442,6 +445,40 @@ theorem finding_readonly_txn_write_panics :
     let h := [⟨2, .begin true⟩, ⟨2, .write 0 (.ins 9)⟩]
     (obsOf h).getLast? = some .crash ∧ (specObsOf h).getLast? = some .err ∧
     (run St.init h).2.2 = [Region.readonly_txn_write_panics] := by
+  decide
+
+/-- The write that panics in a READ ONLY transaction has already resolved its table: on the session
+state it acts exactly like a read of that table (the working copy is registered in
+`Session.tables`), the committed state is untouched. (A READ ONLY transaction is explicit.) -/
+theorem readonly_write_registers_like_read (st : St) (s t : Nat) (w : W)
+    (hro : (beginTx (st.sess s)).readOnly = true) (hex : (beginTx (st.sess s)).explicit = true) :
+    (step st ⟨s, .write t w⟩).1.base = st.base ∧
+    (step st ⟨s, .write t w⟩).1.sess = (step st ⟨s, .read t⟩).1.sess ∧
+    (step st ⟨s, .read t⟩).1.base = st.base ∧
+    (step st ⟨s, .write t w⟩).2.1 = .crash ∧ (specStep st ⟨s, .write t w⟩).2.1 = .err ∧
+    (specStep st ⟨s, .write t w⟩).1.sess = (step st ⟨s, .write t w⟩).1.sess := by
+  have hfl := touch_flags st.base (beginTx (st.sess s)) t
+  have hopen : closeTx (fun b se => publish b se.tables) false st.base (touch st.base (beginTx (st.sess s)) t).1
+      = (st.base, (touch st.base (beginTx (st.sess s)) t).1) :=
+    closeTx_open _ _ _ (Or.inl (by rw [hfl.2.1]; exact hex))
+  simp only [step, specStep, stepWith, hro, if_true, Bool.false_eq_true, if_false, hopen]
+  exact ⟨trivial, trivial, trivial, trivial, trivial, trivial⟩
+
+/-- Non-vacuity of `readonly_write_registers_like_read`. -/
+example :
+    let st := (run St.init [⟨2, .begin true⟩]).1
+    (beginTx (st.sess 2)).readOnly = true ∧ (beginTx (st.sess 2)).explicit = true ∧
+    ((step st ⟨2, .write 1 (.ins 2)⟩).1.sess 2).tables = [(1, [])] := by
+  decide
+
+/-- The two listed findings combined (sweep alarm of seed 1): the INSERT that panics in session 2's
+READ ONLY transaction registered t1's snapshot; session 0 then commits row 101 to t1; session 2
+reads the snapshot and its COMMIT writes it back, erasing row 101. Both regions are flagged, in
+this order; the Spec keeps row 101. -/
+theorem finding_readonly_panic_then_commit_overwrites :
+    let h := [⟨2, .begin true⟩, ⟨2, .write 1 (.ins 2)⟩, ⟨0, .write 1 (.ins 101)⟩, ⟨2, .read 1⟩, ⟨2, .commit⟩, ⟨0, .read 1⟩]
+    (obsOf h).getLast? = some (.rows []) ∧ (specObsOf h).getLast? = some (.rows [101]) ∧
+    (run St.init h).2.2 = [Region.readonly_txn_write_panics, Region.commit_overwrites_read_table] := by
   decide
 
 /-- **ROLLBACK discards exactly the session's changes**: the committed state is untouched, the
